@@ -770,6 +770,109 @@ def implies(pre, concl):
     return (not all(bool(p) for p in pre)) or bool(concl)
 
 
+class EndToEndSample(Harness):
+    """Cross-validation of the lemma chain (NOT a solver-decided claim): the real crosscorrelate / autocorrelate on a small
+    real catalog (real KD-trees, real cache files) against a brute-force O(n^2) count.  Positions straddle RA = 0 and
+    approach a pole; low redshift (zmin < 0.05); weights present."""
+
+    functions = (meas.crosscorrelate, meas.autocorrelate)
+    modules = ()
+    xval = False
+
+    def __init__(self, case):
+        self.case = case
+        self.name = "crossvalidation.end_to_end.%s" % case
+        self.bounds = "one concrete catalog per run (seeded by VERIF_SEED): 3 patches, 2 bins, 2 scales; sampled, not exhaustive"
+
+    def make_inputs(self, eng):
+        return {"seed": int(__import__("os").environ.get("VERIF_SEED", "0") or 0)}
+
+    def concrete_inputs(self, m, inp):
+        return dict(inp)
+
+    def body(self, inp):
+        import shutil
+        import tempfile
+
+        import pandas as pd
+        from yaw import Catalog as RealCatalog, Configuration
+        from yaw.coordinates import AngularCoordinates, AngularDistances
+
+        rng = np.random.default_rng(1000 + inp["seed"])
+        pole = self.case == "pole"
+
+        def sample(n):
+            if pole:
+                ra = rng.uniform(0, 360, n)
+                dec = rng.uniform(86.0, 90.0, n)
+            else:
+                ra = (rng.uniform(-3.0, 3.0, n)) % 360.0
+                dec = rng.uniform(-2.0, 2.0, n)
+            return pd.DataFrame(dict(ra=ra, dec=dec, z=rng.uniform(0.01, 0.09, n), w=rng.uniform(0.5, 2.0, n)))
+
+        ref, unk, rnd = sample(60), sample(70), sample(80)
+        tmp = tempfile.mkdtemp(prefix="c01e_", dir=runner.ROOT + "/scratch")
+        try:
+            kw = dict(ra_name="ra", dec_name="dec", weight_name="w", max_workers=1)
+            cref = RealCatalog.from_dataframe(tmp + "/ref", ref, redshift_name="z", patch_num=3, **kw)
+            cunk = RealCatalog.from_dataframe(tmp + "/unk", unk, patch_centers=cref, **kw)
+            crnd = RealCatalog.from_dataframe(tmp + "/rnd", rnd, redshift_name="z", patch_centers=cref, **kw)
+            cfg = Configuration.create(rmin=[0.05, 0.3], rmax=[0.5, 1.5], unit="deg", zmin=0.01, zmax=0.09, num_bins=2, closed="left")
+            edges = cfg.binning.edges
+
+            def load(cat):
+                out = {}
+                for pid, p in cat.items():
+                    d = p.load_data()
+                    out[pid] = (AngularCoordinates(np.column_stack([d["ra"], d["dec"]])), np.asarray(d["weights"]),
+                                np.asarray(d["redshifts"]) if "redshifts" in d.dtype.names else None)
+                return out
+
+            def brute(c1, c2, auto):
+                P = len(c1)
+                res = np.zeros((2, 2, P, P))
+                for s in range(2):
+                    lo, hi = np.deg2rad(cfg.scales.scales.scale_min[s]), np.deg2rad(cfg.scales.scales.scale_max[s])
+                    for b in range(2):
+                        for i in range(P):
+                            xi, wi, zi = c1[i]
+                            mi = (zi >= edges[b]) & (zi < edges[b + 1])
+                            for j in range(P):
+                                if auto and j < i:
+                                    continue
+                                xj, wj, zj = c2[j]
+                                mj = mi if (auto and i == j) else ((zj >= edges[b]) & (zj < edges[b + 1]) if auto else np.ones(len(wj), bool))
+                                tot = 0.0
+                                for a in np.nonzero(mi)[0]:
+                                    d = xj.distance(AngularCoordinates(xi.data[a: a + 1])).data
+                                    sel = mj & (d > lo) & (d <= hi)
+                                    if auto and i == j:
+                                        sel = sel & (np.arange(len(wj)) > a)
+                                    tot += wi[a] * wj[sel].sum()
+                                res[s, b, i, j] = tot
+                return res
+
+            out = []
+            R, U, N = load(cref), load(cunk), load(crnd)
+            cfs = meas.crosscorrelate(cfg, cref, cunk, ref_rand=crnd, max_workers=1)
+            exp_dd, exp_rd = brute(R, U, False), brute(N, U, False)
+            for s in range(2):
+                out.append(Check("cross_dd_scale%d" % s, cfs[s].dd.counts.counts, exp_dd[s], tol=1e-9))
+                out.append(Check("cross_rd_scale%d" % s, cfs[s].rd.counts.counts, exp_rd[s], tol=1e-9))
+            sw = np.array([[R[i][1][(R[i][2] >= edges[b]) & (R[i][2] < edges[b + 1])].sum() for i in range(len(R))] for b in range(2)])
+            out.append(Check("cross_sum_weights1", cfs[0].dd.sum_weights.sum_weights1, sw, tol=1e-12))
+            out.append(Check("cross_sum_weights2", cfs[0].dd.sum_weights.sum_weights2, np.array([[U[i][1].sum() for i in range(len(U))]] * 2), tol=1e-12))
+            afs = meas.autocorrelate(cfg, cref, crnd, count_rr=True, max_workers=1)
+            exp_auto = brute(R, R, True)
+            exp_rr = brute(N, N, True)
+            for s in range(2):
+                out.append(Check("auto_dd_scale%d" % s, afs[s].dd.counts.counts, exp_auto[s], tol=1e-9))
+                out.append(Check("auto_rr_scale%d" % s, afs[s].rr.counts.counts, exp_rr[s], tol=1e-9))
+            return out
+        finally:
+            shutil.rmtree(tmp, ignore_errors=True)
+
+
 def harnesses(tier):
     hs = []
     if tier == "quick":
@@ -777,10 +880,10 @@ def harnesses(tier):
         hs += [PairIteration(3, True), PairIteration(3, False)]
         hs += [Accumulate(2, 1, 2, True), Accumulate(2, 2, 1, False)]
         hs += [MaxAngle(1, 1, "kpc"), MaxAngle(2, 1, "Mpc/h"), MaxAngle(1, 2, "arcmin"), Linkage(2)]
-        hs += [ProcessPair(2, 2, "kpc", False), ProcessPair(2, 1, "Mpc/h", True), Wiring()]
+        hs += [ProcessPair(2, 2, "kpc", False), ProcessPair(2, 1, "Mpc/h", True), Wiring(), EndToEndSample("equator_wrap")]
     else:
         hs += [MaxAngle(2, 2, u) for u in UNITS] + [MaxAngle(3, 1, "kpc"), Linkage(2), Linkage(3), Linkage(2, N=3)]
-        hs += [ProcessPair(3, 2, u, bb) for u in ("kpc", "Mpc/h", "deg") for bb in (False, True)] + [Wiring()]
+        hs += [ProcessPair(3, 2, u, bb) for u in ("kpc", "Mpc/h", "deg") for bb in (False, True)] + [Wiring(), EndToEndSample("equator_wrap"), EndToEndSample("pole")]
         hs += [TreeCount(2, 2, 1), TreeCount(2, 1, 2), TreeCount(1, 1, 3), TreeCount(1, 2, 1, res=1), TreeCount(1, 1, 1, res=2),
                TreeCount(1, 1, 2, res=1), TreeCount(1, 1, 1, res=7), EmptyTree()]
         hs += [PairIteration(4, True), PairIteration(4, False), PairIteration(5, True)]
